@@ -273,6 +273,47 @@ func c04Programs(r *run.Run) {
 			c.Nontrivial()
 			c04Check(c, "run and tail", []*cff.Glyph{cff.NewGlyph(".notdef", 0), buildGlyph("A", 321, [2]float64{-100, 50}, segs)}, desc)
 		})
+	r.Explore(explore.Config{Name: "C04.far-jumps"},
+		"paths of 1..2 segments (moveto, lineto, curveto) between the corners and edge midpoints of the coordinate range [-32000, 32000]^2: single steps of up to 64000 units, more than one charstring number can hold",
+		func(c *explore.Ctx) {
+			pts := [][2]float64{{-32000, -32000}, {32000, 32000}, {-32000, 32000}, {0, 0}, {32000, -1}, {767, -32000}}
+			start := pts[c.Choose(len(pts), "start")]
+			g := cff.NewGlyph("A", 500)
+			g.MoveTo(start[0], start[1])
+			desc := fmt.Sprintf("M%v", start)
+			n := 1 + c.Choose(2, "segments")
+			for i := 0; i < n; i++ {
+				to := pts[c.Choose(len(pts), "target")]
+				switch c.Choose(3, "kind") {
+				case 0:
+					g.MoveTo(to[0], to[1])
+					desc += fmt.Sprintf(" M%v", to)
+				case 1:
+					g.LineTo(to[0], to[1])
+					desc += fmt.Sprintf(" L%v", to)
+				default:
+					mid := pts[c.Choose(len(pts), "control point")]
+					g.CurveTo(mid[0], mid[1], mid[0], to[1], to[0], to[1])
+					desc += fmt.Sprintf(" C%v..%v", mid, to)
+				}
+			}
+			// the largest step between consecutive points of the path (control points included)
+			maxStep := 0.0
+			x, y := 0.0, 0.0
+			for _, cmd := range g.Cmds {
+				for k := 0; k+1 < len(cmd.Args); k += 2 {
+					maxStep = max(maxStep, math.Abs(cmd.Args[k]-x), math.Abs(cmd.Args[k+1]-y))
+					x, y = cmd.Args[k], cmd.Args[k+1]
+				}
+			}
+			sig := "jumps within the number range"
+			if maxStep >= 32768 {
+				sig = "far jumps (a step of 32768 units or more)"
+			}
+			c.Sample(func() any { return desc })
+			c.Nontrivial()
+			c04Check(c, sig, []*cff.Glyph{cff.NewGlyph(".notdef", 500), g}, desc)
+		})
 }
 
 // c04RunReps: representative segments with whole-unit steps (shared with C03.cff-runs, where an
